@@ -163,6 +163,26 @@ def check_via_netlist(case, res, fam, lst):
                           f'{type(e).__name__}: {e}')
             return
         _judge_module(case, res, fam, lst, m2, ex, vecs, 'netlist+add')
+        # another history: recognition on load, then the LAST input rectangle is moved IN PLACE by one grid step to the
+        # right (as the placement tools move rectangles), then recognition again -> verdict for the moved list
+        reset_frame_state()
+        try:
+            n3 = Netlist({'Modules': {'M': {'area': 1, 'rectangles': vecs}}})
+            m3 = n3.get_module('M')
+            f = FAMS[fam]
+            step = float(f(1) - f(0))
+            target = next(r for r in m3.rectangles if (r.center.x, r.center.y, r.shape.w, r.shape.h) == tuple(vecs[-1]))
+            target.center.x += step
+            n3.create_stogs()
+        except Exception as e:  # noqa
+            res.violation('raises', case, dict(fam=fam, n=len(lst), via='netlist+move'), 'recognition after an in-place move',
+                          f'{type(e).__name__}: {e}')
+            return
+        moved_last = (lst[-1][0] + 1, lst[-1][1], lst[-1][2] + 1, lst[-1][3])
+        ex3 = ex[:-1] + [exact_rect(fam, moved_last) if fam != 'NEAR' else None]
+        if ex3[-1] is not None:
+            vecs3 = vecs[:-1] + [[target.center.x, target.center.y, target.shape.w, target.shape.h]]
+            _judge_module(case, res, fam, lst, m3, ex3, vecs3, 'netlist+move')
 
 
 def _judge_module(case, res, fam, lst, m, ex, vecs, via):
